@@ -447,6 +447,7 @@ func GenDoc(rng *RNG) []byte {
 
 // adversarial fragments for the safety properties
 var advPieces = []string{
+	"# h {a<b=c}", "# h {a/b=1}", "# h {data-a<b=1}", "# h {data-a/b=1}", "# h {data-a\"b=1}", "# h {x\"y=1}", "# h {data-<i>=1}", "# h {a>=1}", "# h {a&b=1}", "# h {9a=1}", "# h {-a=1}", "# h {id=a id=b}", "# h {#a #b}", "# h {title=x title=y}",
 	"<script>alert(1)</script>", "<img src=x onerror=alert(1)>", "\"><script>", "' onmouseover='x", "<a href=\"javascript:x\">", "<!-- --><b>", "--><x>", "<![CDATA[", "]]>",
 	"[a](\"><b>)", "[a](/u \"t\\\"><b>\")", "![\"><b>](u)", "![a](u '\"<')", "<http://a.b/\"><b>>", "<x@y.z\"<>", "`<b>`", "```\"><b>\n<b>\n```", "# h {#\"><b>}", "# h {a=\"\\\"><b>\"}", "# h {onclick=x}",
 	"# h {.a\"b}", "# h {data-x=\"<\"}", "&lt;b&gt;", "&#60;b&#62;", "&#x3c;b&#x3e;", "&amp;lt;", "&quot;", "&#34;", "&#0;", "&#xD800;", "&#x110000;", "&#99999999;", "\x00", "\xc3", "\xe2\x82", "\xf0\x9f\x98",
